@@ -130,4 +130,23 @@ SeqCase ==
            pos |-> IF r.at <= Len(stk) THEN <<PosMin(stk, r.at), PosWild(stk, r.at)>> ELSE <<>>]
 EmitSeqs == (Len(stk) > 0 /\ SEmitMode = "seqs") => PrintT(ToJson(SeqCase))
 
+---------------------------------------------------------------------------
+(* near misses: every sentence of a family with one token deleted, one token doubled, or two adjacent tokens    *)
+(* swapped.  The reference parser decides whether what remains is a sentence (and of which tree); the real     *)
+(* parser must agree - a separator that became optional, a bracket that is no longer required, a keyword that  *)
+(* is no longer an identifier all show here.                                                                   *)
+DelTok(toks, i)  == SubSeq(toks, 1, i - 1) \o SubSeq(toks, i + 1, Len(toks))
+DupTok(toks, i)  == SubSeq(toks, 1, i) \o SubSeq(toks, i, Len(toks))
+SwapTok(toks, i) == SubSeq(toks, 1, i - 1) \o <<toks[i + 1], toks[i]>> \o SubSeq(toks, i + 2, Len(toks))
+NearCase(toks) ==
+  LET r == RefParse(toks)
+  IN IF r.ok THEN [kind |-> "seq", ok |-> TRUE, tree |-> r.node, n |-> Len(toks), texts |-> <<TextSpaced(toks), TextWild(toks)>>]
+     ELSE [kind |-> "seq", ok |-> FALSE, at |-> r.at, n |-> Len(toks), texts |-> <<TextSpaced(toks), TextWild(toks)>>, pos |-> <<>>]
+EmitNear ==
+  (SComplete /\ SEmitMode = "near") =>
+    LET toks == Min(STree)
+    IN /\ \A i \in 1..Len(toks) : Len(toks) = 1 \/ PrintT(ToJson(NearCase(DelTok(toks, i))))
+       /\ \A i \in 1..Len(toks) : PrintT(ToJson(NearCase(DupTok(toks, i))))
+       /\ \A i \in 1..(Len(toks) - 1) : PrintT(ToJson(NearCase(SwapTok(toks, i))))
+
 =============================================================================
